@@ -176,6 +176,23 @@ func ifaceMethodKey(t types.Type, m *types.Func) string {
 func (f *frame) staticCall(site siteT, callee *ssa.Function, args []Val, pos token.Pos, cc *ssa.CallCommon) Val {
 	c := f.c
 	key := funcKey(callee)
+	if (key == "sort.Slice" || key == "sort.SliceStable") && cc != nil && len(cc.Args) == 2 {
+		// sort.Slice(x, less) rearranges the elements of the slice x and touches nothing else (the
+		// comparison function is assumed to have no side effects): only x's backing array is havoced.
+		if mi, ok := cc.Args[0].(*ssa.MakeInterface); ok {
+			if st, ok := types.Unalias(mi.X.Type()).Underlying().(*types.Slice); ok {
+				sl := f.asTerm(f.get(mi.X))
+				ekey := elemKey(st.Elem())
+				esort := c.elemSort(st.Elem())
+				arr := c.heapGet(f.heap, ekey, esort)
+				nv := c.fresh(ekey+"~sorted", arrayElemSort(esort))
+				c.heapSet(f.heap, ekey, ite(eq(sBase(sl), tNil), arr, store(arr, sBase(sl), nv)))
+				c.assumed["sort.Slice rearranges the elements of its slice argument only; its comparison function has no side effects (the rearranged contents are left unconstrained)"] = true
+				c.externs[key] = true
+				return Tuple{}
+			}
+		}
+	}
 	if ct := c.eng.contract(key); ct != nil && !(f.c.eng.inlineOverContract[key]) {
 		var obj *types.Func
 		if o, ok := callee.Object().(*types.Func); ok {
